@@ -19,6 +19,8 @@ func main() {
 		os.Exit(runDriveCLI(os.Args[2:]))
 	case "cli-faults": // cli-faults <table-export> <seed> <rounds> <result-json>
 		os.Exit(runCLIFaults(os.Args[2:]))
+	case "serve":
+		os.Exit(runServe(os.Args[2:]))
 	case "cli-worker":
 		os.Exit(runCLIWorker(os.Args[2:]))
 	case "cli": // cli <prop> <export-file> <result-json>
